@@ -38,6 +38,9 @@ func init() {
 			{ID: "C01.11", Desc: "Expires-based lifetime is Expires minus Date", Run: func(c *Ctx) { ruleExpiresMinusDate(c, "C01.11") }, MinSites: 1},
 			{ID: "C01.10", Desc: "sums of ages and lifetimes saturate", Run: func(c *Ctx) { ruleDurationSums(c, "C01.10") }, MinSites: 2},
 			{ID: "C01.9", Desc: "a positive request max-age caps the lifetime on every path", Run: func(c *Ctx) { ruleRequestMaxAgeCaps(c, "C01.9") }, MinSites: 1},
+			{ID: "C01.16", Desc: "the Age value is the first member of the field", Run: func(c *Ctx) { ruleAgeFirstMember(c, "C01.16") }, MinSites: 1},
+			{ID: "C01.17", Desc: "Expires and the heuristic apply only when no max-age directive is present", Run: func(c *Ctx) { ruleExplicitExpiryByPresence(c, "C01.17") }, MinSites: 1},
+			{ID: "C01.18", Desc: "the heuristic lifetime is rounded down", Run: func(c *Ctx) { ruleHeuristicRoundedDown(c, "C01.18") }, MinSites: 1},
 		},
 	})
 }
@@ -342,11 +345,46 @@ func dominatingConds(b *ssa.BasicBlock) []domCond {
 			continue
 		}
 		t, f := d.Succs[0], d.Succs[1]
-		td := t == b || (t.Dominates(b) && len(t.Preds) == 1)
-		fd := f == b || (f.Dominates(b) && len(f.Preds) == 1)
+		td := (t == b || t.Dominates(b)) && len(t.Preds) == 1
+		fd := (f == b || f.Dominates(b)) && len(f.Preds) == 1
 		// a successor with several predecessors does not imply the edge; use reachability instead
 		if !td && !fd {
 			// b reachable only via one side?
+			rt := reachableAvoiding(t, b, d)
+			rf := reachableAvoiding(f, b, d)
+			if rt && !rf {
+				td = true
+			} else if rf && !rt {
+				fd = true
+			}
+		}
+		if td && !fd {
+			out = append(out, domCond{iff.Cond, true, d})
+		} else if fd && !td {
+			out = append(out, domCond{iff.Cond, false, d})
+		}
+	}
+	return out
+}
+
+// controlConds lists the decisions "in front of" block b for rules that enumerate them (is the operation conditional at
+// all, is there a condition other than the expected ones): besides the implied edges of dominatingConds it includes the
+// edge of a dominating If whose successor is b itself although b has other predecessors (`if a || b { … }`: the edge of
+// `a` is reported although it is not implied). Never use it to conclude that a guard holds.
+func controlConds(b *ssa.BasicBlock) []domCond {
+	var out []domCond
+	for d := b.Idom(); d != nil; d = d.Idom() {
+		if len(d.Instrs) == 0 {
+			continue
+		}
+		iff, ok := d.Instrs[len(d.Instrs)-1].(*ssa.If)
+		if !ok {
+			continue
+		}
+		t, f := d.Succs[0], d.Succs[1]
+		td := t == b || (t.Dominates(b) && len(t.Preds) == 1)
+		fd := f == b || (f.Dominates(b) && len(f.Preds) == 1)
+		if !td && !fd {
 			rt := reachableAvoiding(t, b, d)
 			rf := reachableAvoiding(f, b, d)
 			if rt && !rf {
